@@ -288,6 +288,30 @@ Record ev_fields := {
   ef_authorised_via : bytes         (* MemberContent.AuthorisedVia *)
 }.
 
+(* The same fields read off the event JSON (the tie between the event text and the record, for
+   events whose members have the types the Go structs expect; the event ID, a hash for most room
+   versions, stays an input).  Membership() fails when content.membership is not a string or
+   when the event has no state key; an absent membership reads as the empty string. *)
+Definition fields_of_event (ev : json) (event_id : bytes) : ev_fields :=
+  let str k := match jget_str k ev with Some s => s | None => [] end in
+  let content := match jget (bs "content") ev with Some c => c | None => JObj [] end in
+  let state_key := match jget (bs "state_key") ev with Some (JStr s) => Some s | _ => None end in
+  let membership :=
+    match jget (bs "membership") content with
+    | Some (JStr m) => Some m
+    | Some JNull | None => Some []
+    | Some _ => None
+    end in
+  {| ef_type := str (bs "type");
+     ef_state_key := state_key;
+     ef_sender := str (bs "sender");
+     ef_room_id := str (bs "room_id");
+     ef_event_id := event_id;
+     ef_membership := match state_key with Some _ => membership | None => None end;
+     ef_content_ok := match membership with Some _ => true | None => false end;
+     ef_authorised_via := match jget_str (bs "join_authorised_via_users_server") content with
+                          | Some s => s | None => [] end |}.
+
 (* answer of the UserIDForSender function *)
 Inductive sender_ans :=
 | SErr
